@@ -518,6 +518,13 @@ impl Engine for C12 {
                             d.create_link(&format!("{r_real}/{n}"), b);
                             st.probe("dir_file_is_a_symlink");
                             st.nontrivial = true;
+                        } else if dp.links != 0 && healed.is_none() && (crate::rng::fnv(n.as_bytes()) ^ dp.links) % 3 == 1 {
+                            // a pipe: metadata reports size 0, the data arrives anyway (read once: only where nothing is
+                            // healed and read again) - missed seeded change C12-14 (a buffer sized by metadata().len())
+                            if d.create_pipe_file(&format!("{r_real}/{n}"), b) {
+                                st.probe("dir_file_is_a_pipe");
+                                st.nontrivial = true;
+                            }
                         } else {
                             d.create(&format!("{r_real}/{n}"), b);
                         }
